@@ -244,6 +244,7 @@ func commonPreconditions(c *Check) {
 	c.storeOnlyState(c.Prop + ".S1")
 	c.freshDecodeTargets(c.Prop + ".S2")
 	c.loopVarAddresses(c.Prop + ".S3")
+	c.exhaustiveScans(c.Prop + ".S4")
 }
 
 // schemaPredicate: the validator fn accepts a document only if it passed JSON-schema validation (the schema
@@ -404,13 +405,28 @@ func (c *Check) exhaustiveLookup(rule string) {
 		})
 	}
 	inLoop(f.Body, 0)
+	// the scan may live in a helper the lookup delegates to (a method of a registry type)
+	var helpers []*Func
+	for _, g := range c.P.callees(f) {
+		if g != f && g.isHandWritten() && g.Body != nil && g.pkgName() == "keeper" {
+			helpers = append(helpers, g)
+		}
+	}
+	for _, g := range helpers {
+		saved := info
+		info = g.Pkg.TypesInfo
+		inLoop(g.Body, 0)
+		info = saved
+	}
 	// a reported match is dominated by equality of the element's service name with the argument
 	okMatch := false
-	for _, pa := range c.P.PathsOf(f) {
-		if len(pa.Ret) == 3 && pa.Ret[2].IsAt("#true") {
-			for _, fa := range pa.AllFacts() {
-				if !fa.Neg && fa.T.Op == "==" && fa.T.ContainsAtom("P0") && strings.Contains(fa.T.String(), ".ModuleService.ServiceName") {
-					okMatch = true
+	for _, g := range append([]*Func{f}, helpers...) {
+		for _, pa := range c.P.PathsOf(g) {
+			if n := len(pa.Ret); n >= 2 && pa.Ret[n-1].IsAt("#true") {
+				for _, fa := range pa.AllFacts() {
+					if !fa.Neg && fa.T.Op == "==" && mentionsParam(fa.T) && strings.Contains(fa.T.String(), ".ModuleService.ServiceName") {
+						okMatch = true
+					}
 				}
 			}
 		}
@@ -550,4 +566,288 @@ func (c *Check) loopVarAddresses(rule string) {
 		visit(f.Body, map[*types.Var]ast.Node{})
 	}
 	c.req(nLoops >= 20, rule, "loops-scanned", token.NoPos, fmt.Sprintf("%d loops scanned, %d addresses of loop variables", nLoops, nAddr))
+}
+
+// exhaustiveScans (S4): a loop in keeper / end-of-block code is left by break only when a caller-supplied
+// callback asked to stop (the "if stop := op(...); stop { break }" idiom of the iterate helpers). Every other
+// break cuts a scan over stored records, providers or coins short: later elements are neither accumulated
+// nor updated.
+func (c *Check) exhaustiveScans(rule string) {
+	reach := c.entryReachable()
+	var fs []*Func
+	for f := range reach {
+		if f.isHandWritten() && f.Body != nil && (f.pkgName() == "keeper" || f.pkgName() == "service") {
+			fs = append(fs, f)
+		}
+	}
+	sort.Slice(fs, func(i, j int) bool { return fs[i].Name < fs[j].Name })
+	nLoops, nBreaks := 0, 0
+	for _, f := range fs {
+		info := f.Pkg.TypesInfo
+		isCallbackCall := func(e ast.Expr) bool {
+			call, ok := ast.Unparen(e).(*ast.CallExpr)
+			if !ok {
+				return false
+			}
+			var id *ast.Ident
+			switch fn := ast.Unparen(call.Fun).(type) {
+			case *ast.Ident:
+				id = fn
+			case *ast.SelectorExpr:
+				id = fn.Sel
+			}
+			if id == nil {
+				return false
+			}
+			v, ok := info.Uses[id].(*types.Var)
+			if !ok {
+				return false
+			}
+			_, isFn := v.Type().Underlying().(*types.Signature)
+			return isFn
+		}
+		var walk func(nd ast.Node, loopDepth int, ifs []*ast.IfStmt)
+		walk = func(nd ast.Node, loopDepth int, ifs []*ast.IfStmt) {
+			ast.Inspect(nd, func(x ast.Node) bool {
+				switch s := x.(type) {
+				case *ast.FuncLit:
+					return false
+				case *ast.ForStmt:
+					nLoops++
+					walk(s.Body, loopDepth+1, nil)
+					return false
+				case *ast.RangeStmt:
+					nLoops++
+					walk(s.Body, loopDepth+1, nil)
+					return false
+				case *ast.SwitchStmt, *ast.TypeSwitchStmt, *ast.SelectStmt:
+					// break inside a switch leaves the switch, not the loop
+					var body *ast.BlockStmt
+					switch y := s.(type) {
+					case *ast.SwitchStmt:
+						body = y.Body
+					case *ast.TypeSwitchStmt:
+						body = y.Body
+					case *ast.SelectStmt:
+						body = y.Body
+					}
+					walk(body, 0, nil)
+					return false
+				case *ast.IfStmt:
+					walk(s.Body, loopDepth, append(append([]*ast.IfStmt(nil), ifs...), s))
+					if s.Else != nil {
+						walk(s.Else, loopDepth, ifs)
+					}
+					return false
+				case *ast.BranchStmt:
+					if s.Tok != token.BREAK || loopDepth == 0 || s.Label != nil {
+						return true
+					}
+					nBreaks++
+					allowed := false
+					if len(ifs) > 0 {
+						is := ifs[len(ifs)-1]
+						cond := ast.Unparen(is.Cond)
+						if isCallbackCall(cond) {
+							allowed = true
+						}
+						if id, ok := cond.(*ast.Ident); ok {
+							if as, ok := is.Init.(*ast.AssignStmt); ok && len(as.Lhs) == 1 && len(as.Rhs) == 1 {
+								if lid, ok := as.Lhs[0].(*ast.Ident); ok && info.Defs[lid] != nil && info.Defs[lid] == info.Uses[id] && isCallbackCall(as.Rhs[0]) {
+									allowed = true
+								}
+							}
+						}
+					}
+					c.req(allowed, rule, unitConstruct(f, "scan-break"), s.Pos(),
+						"a loop is left by break only on the stop request of the caller's callback (other breaks skip the remaining records / providers / coins)")
+				}
+				return true
+			})
+		}
+		walk(f.Body, 0, nil)
+	}
+	c.req(nLoops >= 20, rule, "scan-loops", token.NoPos, fmt.Sprintf("%d loops, %d break statements", nLoops, nBreaks))
+}
+
+// funcSig: parameter and result types of a function as one string.
+func funcSig(f *Func) string {
+	var ps, rs []string
+	for _, pr := range f.Params {
+		ps = append(ps, typeName(pr.Type()))
+	}
+	for _, r := range f.Res {
+		rs = append(rs, typeName(r.Type()))
+	}
+	return "(" + strings.Join(ps, ",") + ")->(" + strings.Join(rs, ",") + ")"
+}
+
+// typesAnchors: the functions of package types the rules anchor on, by their conventional name and by what
+// identifies them when that name changes (their signature, or for validators of one string the schema /
+// pattern they check against).
+var typesAnchors = map[string]string{
+	"GenerateRequestID":             "(github.com/tendermint/tendermint/libs/bytes.HexBytes,uint64,int64,int16)->(github.com/tendermint/tendermint/libs/bytes.HexBytes)",
+	"SplitRequestID":                "(github.com/tendermint/tendermint/libs/bytes.HexBytes)->(github.com/tendermint/tendermint/libs/bytes.HexBytes,uint64,int64,int16,error)",
+	"GenerateRequestContextID":      "([]byte,int64)->(github.com/tendermint/tendermint/libs/bytes.HexBytes)",
+	"SplitRequestContextID":         "(github.com/tendermint/tendermint/libs/bytes.HexBytes)->(github.com/tendermint/tendermint/libs/bytes.HexBytes,int64,error)",
+	"GetDiscountByTime":             "(types.Pricing,time.Time)->(sdk.Dec)",
+	"GetDiscountByVolume":           "(types.Pricing,uint64)->(sdk.Dec)",
+	"ValidateRequest":               "(string,sdk.Coins,[]types.AccAddress,string,int64,bool,uint64,int64)->(error)",
+	"ValidateRequestContextUpdating": "([]types.AccAddress,sdk.Coins,int64,uint64,int64)->(error)",
+	"NewGenesisState":               "(types.Params,[]types.ServiceDefinition,[]types.ServiceBinding,map[string][]byte,map[string]*types.RequestContext)->(*types.GenesisState)",
+	"ValidateGenesis":               "(types.GenesisState)->(error)",
+	"NewParams":                     "(int64,int64,sdk.Coins,sdk.Dec,sdk.Dec,time.Duration,time.Duration,uint64,string)->(types.Params)",
+}
+
+// typesFn resolves an anchor function of package types: by its conventional name, else by its signature.
+func (c *Check) typesFn(name string) *Func {
+	if f := c.P.FuncNamed("types." + name); f != nil {
+		return f
+	}
+	if c.typesMemo == nil {
+		c.typesMemo = map[string]*Func{}
+	}
+	if f, ok := c.typesMemo[name]; ok {
+		return f
+	}
+	var found *Func
+	if sig, ok := typesAnchors[name]; ok {
+		n := 0
+		for _, f := range c.P.Funcs {
+			if f.isHandWritten() && f.Obj != nil && f.Recv == nil && f.Body != nil && f.pkgName() == "types" && funcSig(f) == sig {
+				found = f
+				n++
+			}
+		}
+		if n != 1 {
+			found = nil
+		}
+	}
+	if name == "ValidateResponseOutput" || name == "ValidateRequestInput" {
+		schema := "#types.OutputSchema"
+		if name == "ValidateRequestInput" {
+			schema = "#types.InputSchema"
+		}
+		for _, f := range c.P.Funcs {
+			if !f.isHandWritten() || f.Obj == nil || f.Recv != nil || f.Body == nil || f.pkgName() != "types" || funcSig(f) != "(string)->(error)" {
+				continue
+			}
+			for _, fa := range c.P.SummaryOf(f).SuccessFacts {
+				if fa.T.ContainsAtom(schema) {
+					found = f
+				}
+			}
+		}
+	}
+	c.typesMemo[name] = found
+	return found
+}
+
+// typesName: the qualified name the anchor currently has (its conventional name if it cannot be resolved, so
+// that the rule using it reports the anchor as missing).
+func (c *Check) typesName(name string) string {
+	return nameOf(c.typesFn(name), "types."+name)
+}
+
+// paramValidatorsAgree: genesis validation (Params.Validate) applies to a field the validator that the
+// parameter store registers for that field's key (ParamSetPairs): a registered validator is never applied to
+// another field, so genesis validation accepts exactly what parameter changes on the running chain accept.
+func (c *Check) paramValidatorsAgree(rule string) {
+	ps := c.P.FuncNamed("types.Params.ParamSetPairs")
+	vf := c.P.FuncNamed("types.Params.Validate")
+	if ps == nil || vf == nil {
+		c.undecided(rule, "types.Params", token.NoPos, "ParamSetPairs / Validate not found")
+		return
+	}
+	reg := map[string]string{}   // field -> validator
+	owner := map[string]string{} // validator -> field
+	for _, pa := range c.P.PathsOf(ps) {
+		if len(pa.Ret) != 1 || pa.Ret[0].Op != "lit" {
+			continue
+		}
+		for _, el := range pa.Ret[0].A[1:] {
+			var fld, val string
+			el.Walk(func(t *Term) bool {
+				if strings.HasPrefix(t.Op, ".Params.") && len(t.A) == 1 {
+					fld = strings.TrimPrefix(t.Op, ".Params.")
+				}
+				if t.Is("func") && len(t.A) >= 1 {
+					val = t.A[0].At
+				}
+				return true
+			})
+			if fld != "" && val != "" {
+				reg[fld] = val
+				owner[val] = fld
+			}
+		}
+	}
+	n := 0
+	for _, pa := range c.P.PathsOf(vf) {
+		if pa.Exit != ExitSuccess && pa.Exit != ExitMaybe {
+			continue
+		}
+		for _, ev := range pa.Events {
+			if ev.Kind != EvCall || ev.CI.fn == nil {
+				continue
+			}
+			want, isReg := owner[ev.CI.fn.Name]
+			if !isReg {
+				continue
+			}
+			for _, a := range ev.CI.args {
+				a = stripConv(a)
+				if strings.HasPrefix(a.Op, ".Params.") && len(a.A) == 1 {
+					n++
+					got := strings.TrimPrefix(a.Op, ".Params.")
+					c.req(got == want, rule, "types.Params.Validate#"+got, ev.Pos,
+						fmt.Sprintf("field %s is validated by %s, which the parameter store registers for %s", got, ev.CI.fn.Name, want))
+				}
+			}
+		}
+	}
+	// a table of (validator, value) entries run in a loop: each entry is an application
+	seenLit := map[string]bool{}
+	for _, pa := range c.P.PathsOf(vf) {
+		visit := func(t *Term) {
+			if t == nil {
+				return
+			}
+			t.Walk(func(x *Term) bool {
+				if x.Op != "lit" || len(x.A) < 3 || seenLit[x.String()] {
+					return true
+				}
+				var val, fld string
+				for _, kv := range x.A[1:] {
+					if len(kv.A) != 1 {
+						continue
+					}
+					v := stripConv(kv.A[0])
+					if v.Is("func") && len(v.A) >= 1 {
+						val = v.A[0].At
+					}
+					if strings.HasPrefix(v.Op, ".Params.") && len(v.A) == 1 {
+						fld = strings.TrimPrefix(v.Op, ".Params.")
+					}
+				}
+				if want, isReg := owner[val]; isReg && fld != "" {
+					seenLit[x.String()] = true
+					n++
+					c.req(fld == want, rule, "types.Params.Validate#"+fld, pa.RetPos,
+						fmt.Sprintf("field %s is validated by %s, which the parameter store registers for %s", fld, val, want))
+				}
+				return true
+			})
+		}
+		for _, ev := range pa.Events {
+			visit(ev.Val)
+			if ev.CI != nil {
+				for _, a := range ev.CI.args {
+					visit(a)
+				}
+				visit(ev.CI.recv)
+			}
+		}
+	}
+	c.req(len(reg) >= 5 && n >= 5, rule, "types.Params#validators", token.NoPos, fmt.Sprintf("%d registered (field, validator) pairs; %d applications in Validate checked", len(reg), n))
 }
